@@ -22,18 +22,18 @@ TRUSTED_EXTRA = ['the kernel guarantees (G1-G3) that make `tick` admissible only
                  'heapq returns an item that is minimal under PriorityItem.__lt__ (checked on every hand-off by the model, which rejects a non-minimal choice)',
                  'py2lean/elem.py + elements.py (typed AST-subset translator; hand-written per-class field schema of WFQ / VC objects, declared effects '
                  '`add_packet_to_queue`, `active_set.add`, `store.put(PriorityItem((stamp, now), packet))`, the active-set loop as a fold over the '
-                 'list of active weights); the bridge theorems C14.wfq_put_/wfq_vtime_/vc_put_/send_delay_generated_eq_model tie its output to the model']
-BRIDGES = ['C14.wfq_put_generated_eq_model', 'C14.wfq_vtime_generated_eq_model', 'C14.vc_put_generated_eq_model',
-           'C14.send_delay_generated_eq_model']
+                 'list of active weights); the bridge theorems C14.wfq_put_/wfq_vtime_/vc_put_generated_eq_model tie its output to the model']
+BRIDGES = ['C14.wfq_put_generated_eq_model', 'C14.wfq_vtime_generated_eq_model', 'C14.vc_put_generated_eq_model']
 HAND_MODELLED = ['WFQ.run / VC.run (generator control flow and WFQ\'s bookkeeping after a transmission: class_count, active_set.remove, reset)',
-                 'Scheduler.send_packet (control flow, per-flow counters)', 'Scheduler.add_packet_to_queue', 'WFQ.__init__ / VC.__init__',
+                 'Scheduler.send_packet (control flow, per-flow counters; its transmission delay is translated for C12: Generated/SchedTx.lean)', 'Scheduler.add_packet_to_queue', 'WFQ.__init__ / VC.__init__',
                  'the dict / set containers themselves (association lists in the model; the translated code sees one class)']
 _PREP = {}
 
 
 def prepare(ctx):
-    """regenerate lean/OnlVerif/Generated/Sched.lean from the source under $ONL_REPO (a translator failure or a bridge
-    theorem that no longer compiles is a broken obligation)"""
+    """regenerate lean/OnlVerif/Generated/Sched.lean (WFQ / VC stamp code; the transmission delay of `send_packet` is C12's
+    `SchedTx.lean`) from the source under $ONL_REPO (a translator failure or a bridge theorem that no longer compiles is a
+    broken obligation)"""
     from py2lean import translate, elements
     _PREP['translated'] = elements.TRANSLATED['Sched']
     _PREP['rewritten'] = translate.regenerate_all(only=('Sched',))
